@@ -285,6 +285,10 @@ FAMILIES = [
     Family('pair2real', fam_waits,
            thorough=dict(k=2, waits=2, kinds=K5, real=True),
            bounds='2 activities x 2 waits, exact rational dates'),
+    Family('reuse_runs', _c07.fam_reuse_runs, quick=dict(), thorough=dict(real=True),
+           reach=['second-run', 'second-run-starts-before-the-date'],
+           bounds='one stored date notification used in two consecutive simulations with symbolic '
+                  'start times (harness shared with C07)'),
     Family('reuse', _c07.fam_reuse, quick=dict(), thorough=dict(real=True),
            reach=['first-wait-abandoned', 'second-use-already-true', 'second-use-never'],
            bounds='one stored time == u / time >= u object waited for twice (directly inside '
